@@ -975,6 +975,41 @@ func (c *eCase) run(mode string) []reqRec {
 		}
 		return recs
 	}
+	if mode == "ws" {
+		// the client keeps the state and the cache objects itself and hands them to a NEW engine for every request
+		// (WithState / WithMemory, no persister): nothing is serialised, but every request meets a fresh engine and renderer
+		if c.opt("memcap") {
+			cfg.CacheSize = 0
+		}
+		rs := &recRes{c: c, ncalls: &ncalls}
+		st := state.NewState(uint32(c.flags))
+		ca := cache.NewCache()
+		if c.cache > 0 {
+			ca = ca.WithCacheSize(uint32(c.cache))
+		}
+		rstore, rclean := c.resStore()
+		defer rclean()
+		stopped := false
+		for _, in := range c.inputs {
+			if stopped {
+				recs = append(recs, reqRec{x: "stopped"})
+				continue
+			}
+			en := engine.NewEngine(cfg, c.resourceFor(rs, rstore)).WithState(st).WithMemory(ca)
+			if f := rs.firstFunc(); f != nil {
+				en = en.WithFirst(f)
+			}
+			rs.calls, rs.lookups = nil, nil
+			rec := reqRec{}
+			oneRequest(en, in, &rec)
+			fillRec(&rec, st, ca, rs)
+			recs = append(recs, rec)
+			if rec.x == "panic" || rec.f == "panic" {
+				stopped = true
+			}
+		}
+		return recs
+	}
 	ctx := context.Background()
 	if mode == "lp" {
 		// one long-lived engine that is given a persister (over an empty store) instead of a state and a cache
